@@ -152,6 +152,13 @@ pub struct Profile {
     pub order_weights: Option<[u32; 7]>,
     /// percent of 512-byte-cluster images whose L1 table spans several 512-byte blocks
     pub wide_l1_pct: u32,
+    /// weights of the size classes: 1..4 clusters, <= 24, <= max_clusters, several L1 entries
+    pub vsize_weights: [u32; 4],
+    /// longest discard in clusters
+    pub max_discard_clusters: u64,
+    /// force 512-byte refcount-block cache slices (and 512-byte blocks): a refcount block then
+    /// consists of many slices, which the allocator walks one by one
+    pub small_rb_slices_pct: u32,
 }
 
 impl Default for Profile {
@@ -172,6 +179,9 @@ impl Default for Profile {
             l1_short_pct: 0,
             multi_l1: true,
             wide_l1_pct: 8,
+            vsize_weights: [30, 40, 20, 10],
+            max_discard_clusters: 8,
+            small_rb_slices_pct: 0,
             max_write_clusters: 8,
             order_weights: None,
         }
@@ -225,7 +235,7 @@ pub fn gen_vsize(s: &mut Src, cb: u8, align_bits: u8, p: &Profile) -> u64 {
         // the top-table dirty-block queue (2..2.3 MiB virtual size)
         l2e * (64 + s.pick(6) as u64) + 1 + s.pick(8) as u64
     } else {
-        match s.weighted(&[30, 40, 20, 10]) {
+        match s.weighted(&p.vsize_weights) {
             0 => 1 + s.pick(4) as u64,
             1 => 1 + s.pick(std::cmp::min(p.max_clusters, 24) as usize) as u64,
             2 => 1 + s.pick(p.max_clusters as usize) as u64,
@@ -346,7 +356,13 @@ pub fn gen_layers_params(raw: &RawCase, p: &Profile) -> (Vec<LayerSpec>, DevPara
         bcbs.push(std::cmp::max(bcb, max_bs_bits));
     }
     let min_cb = bcbs.iter().copied().fold(cb, std::cmp::min);
-    let params = gen_params(&mut s, min_cb, max_bs_bits, p.default_cache_pct);
+    let mut params = gen_params(&mut s, min_cb, max_bs_bits, p.default_cache_pct);
+    if p.small_rb_slices_pct > 0 && s.chance(p.small_rb_slices_pct, 100) {
+        // 512-byte blocks and refcount-block slices; a small or a large slice cache
+        params.bs_bits = 9;
+        let cnt = [2usize, 4, 8, 64][s.pick(4)];
+        params.rb = Some((9, cnt << 9));
+    }
     let vsize = gen_vsize(&mut s, cb, max_bs_bits, p);
     let mut layers = Vec::new();
     if depth == 0 && s.chance(p.formatted_pct, 100) {
@@ -474,7 +490,7 @@ pub fn decode_seq(raw: &RawCase, p: &Profile) -> Decoded {
             }
             2 => {
                 // discard: cluster aligned most of the time, sometimes off by a block, sometimes huge
-                let (off, len) = gen_range(r, vsize, cs, bs, &hot, l2_slice_clusters, 8 * cs);
+                let (off, len) = gen_range(r, vsize, cs, bs, &hot, l2_slice_clusters, p.max_discard_clusters * cs);
                 match weighted1(r[7], &[55, 15, 15, 15]) {
                     0 => {
                         let o = off - off % cs;
